@@ -140,6 +140,19 @@ def build_all(prop: str, tier: str = "quick") -> dict:
             return res
         # a property may own several theorem files: Props/C01.lean, Props/C01emit.lean, …
         extra_files = sorted(f for f in (LEAN / "Props").glob(f"{prop}?*.lean") if f.stem[len(prop)].isalpha())
+        # translator tie (harness/pytranslate.py): a bridge file `Props/CNNpy.lean` is an obligation only while the
+        # Python function it imports is inside the translated subset; otherwise the correspondence is the only tie
+        try:
+            py_status = json.loads((LEAN / "Generated" / "py_status.json").read_text())
+        except Exception:  # noqa: BLE001
+            py_status = {}
+        res["py_tie"] = {}
+        for f in list(extra_files):
+            used = [u for u in re.findall(r"^import Generated\.Py(\w+)", f.read_text(), re.M) if u != "Prelude"]
+            for u in used:
+                res["py_tie"][u] = py_status.get(u, dict(ok=False, why="no status"))
+            if used and not all(py_status.get(u, {}).get("ok") for u in used):
+                extra_files.remove(f)
         rc, out = _run(["lake", "build", f"Props.{prop}"] + [f"Props.{f.stem}" for f in extra_files], cwd=LEAN)
         res["log"] += "\n" + out[-6000:]
         built = rc == 0
@@ -310,8 +323,13 @@ def finish(res: Result, build: dict, rule: str, trusted: list[str], assumptions:
     lines = []
     if res.failures:
         case, why = res.failures[0]
-        p = write_replay(prop, dict(property=prop, kind="failing-input", why=why, case=case,
-                                    seed=res.seed, tier=res.tier, other_failures=len(res.failures) - 1))
+        payload = dict(property=prop, kind="failing-input", why=why, case=case,
+                       seed=res.seed, tier=res.tier, other_failures=len(res.failures) - 1)
+        if not build["proof_ok"]:
+            # which proof obligation stopped checking on this tree (e.g. the translator tie Props/CNNpy.lean)
+            payload["also_broken"] = dict(kind="proof-obligation", log=build["log"][-1500:],
+                                          undischarged=[t for t in build["theorems"] if t not in build["discharged"]][:40])
+        p = write_replay(prop, payload)
         lines.append(f"VIOLATION property={prop} replay={_rel(p)}")
         violations = len(res.failures)
     elif not build["proof_ok"] or res.disagreements:
@@ -348,6 +366,9 @@ def finish(res: Result, build: dict, rule: str, trusted: list[str], assumptions:
         input_distribution=res.distribution,
         known_findings_reconfirmed=res.known_hits,
         notes=res.notes,
+        translator_tie={k: (f"{v.get('func')} translated from source; equality with the model proved in Props/{prop}py*.lean"
+                            if v.get("ok") else f"{v.get('func')} is outside the translated subset ({v.get('why')}); "
+                            "correspondence only") for k, v in (build.get("py_tie") or {}).items()},
         leanchecker=build.get("leanchecker", "not run (quick tier)"),
     )
     cov.update(res.extra)
